@@ -53,6 +53,9 @@ func verifAllModes(s *Schema, v any) {
 	_ = s.VisitJSON(v, MultiErrors())
 	_ = s.VisitJSON(v, VisitAsRequest(), MultiErrors())
 	_ = s.VisitJSON(v, VisitAsResponse())
+	_ = s.VisitJSON(v, MultiErrors(), EnableFormatValidation())
+	_ = s.VisitJSON(v, MultiErrors(), DisablePatternValidation())
+	_ = s.IsMatching(v)
 }
 
 //verif:harness id=C10 tier=quick,thorough witness=end bounds="number schemas without well-formedness assumptions (exclusive flags without bounds, multipleOf any finite float incl. 0 and negatives, formats int32/int64) that pass the real Schema.Validate x any float64 incl. NaN/Inf, bool, ASCII string len<=1, null x 5 option sets; assertion = no panic"
@@ -125,7 +128,15 @@ func verifH_C10_shapes() {
 			s.AdditionalProperties.Has = &f
 		}
 	}
-	if s.Validate(context.Background()) != nil {
+	// the gate is document validation as the user runs it: plainly, or with the options that relax it
+	var gate []ValidationOption
+	switch verifChoose("gate", 3) {
+	case 1:
+		gate = append(gate, DisableSchemaPatternValidation())
+	case 2:
+		gate = append(gate, DisableSchemaPatternValidation(), DisableSchemaDefaultsValidation(), DisableExamplesValidation(), EnableSchemaFormatValidation())
+	}
+	if s.Validate(context.Background(), gate...) != nil {
 		return
 	}
 	var v any
